@@ -913,6 +913,14 @@ func (in *Interp) exec(fr *frame, instr ssa.Instruction, pred bdd.Node, st *Stat
 		if ok {
 			n, isc = lv.IsConst()
 		}
+		if ok && !isc {
+			// a fresh zero-filled slice of symbolic length
+			in.allocN++
+			name := fmt.Sprintf("make#%d", in.allocN)
+			in.roots["elems:"+name] = &rootInfo{} // elements start as zero
+			fr.vals[x] = &Slice{Sym: name, Nil: bdd.False, Len: lv}
+			return
+		}
 		if !isc || n > maxArrayLeaves {
 			in.undecided(x.Pos(), "make([]T, n) with a non-constant or large length")
 		}
